@@ -43,6 +43,7 @@ type c20Event struct {
 	Name     string `json:",omitempty"`
 	CBP      bool   `json:",omitempty"`
 	Digest   string `json:",omitempty"`
+	LP       bool   `json:",omitempty"` // Data delivered inside an LpPacket
 	LifeMs   int    `json:",omitempty"`
 	Id       int    `json:",omitempty"`
 	Ms       int    `json:",omitempty"`
@@ -64,6 +65,7 @@ type c20Run struct {
 	inMeta   []c20In
 	dataWire map[string][]byte
 	stop     bool
+	r        *rand.Rand // separate stream for delivery framing choices
 }
 
 type c20In struct {
@@ -156,7 +158,7 @@ func (cr *c20Run) checkOnce() bool {
 
 func c20History(c *h.Ctx, id string, r *rand.Rand) {
 	c.Eval(1)
-	cr := &c20Run{c: c, id: id, handlers: map[string]enc.Name{}, dataWire: map[string][]byte{}}
+	cr := &c20Run{c: c, id: id, handlers: map[string]enc.Name{}, dataWire: map[string][]byte{}, r: c.Rng(id + "/framing")}
 	cr.tm = simeng.NewTimer()
 	cr.face = simeng.NewFace(true)
 	cr.eng = basic.NewEngine(cr.face, cr.tm, sec.NewSha256IntSigner(cr.tm), func(enc.Name, enc.Wire, ndn.Signature) bool { return true })
@@ -333,7 +335,15 @@ func (cr *c20Run) stepData(nm enc.Name, ev *c20Event) {
 			may[p.id] = true // lifetime over but the timeout has not been delivered yet
 		}
 	}
-	if pi := h.Guard(func() { _ = cr.face.Feed(w) }); pi != nil {
+	frame := w
+	if cr.r.Intn(3) == 0 { // the Data arrives inside a link-protocol packet (with a PIT token), as a forwarder sends it
+		tok := make([]byte, []int{1, 6, 8}[cr.r.Intn(3)])
+		cr.r.Read(tok)
+		frame = tlvwalk.TLV(0x64, append(tlvwalk.TLV(0x62, tok), tlvwalk.TLV(0x50, w)...))
+		ev.LP = true
+		cr.c.Count("data_events_lp_wrapped", 1)
+	}
+	if pi := h.Guard(func() { _ = cr.face.Feed(frame) }); pi != nil {
 		cr.fail("C20:panic:data:"+pi.Frame+":"+pi.Class, "engine panicked on Data: "+pi.Value, nil)
 		return
 	}
